@@ -275,24 +275,24 @@ func (r *Run) Finish(verifDir string, known *KnownFile, meta Meta) int {
 	}
 	sort.Strings(kfl)
 	cov := map[string]interface{}{
-		"explanation":              meta.Explanation,
-		"not_decided":              meta.NotDecided,
-		"obligations":              total,
-		"discharged":               disch,
-		"known_findings":           kfl,
-		"known_finding_count":      kf,
-		"unlisted_violations":      viol,
-		"positive_example_obls":    armed,
-		"rules":                    rules,
-		"samples":                  samples,
-		"exhaustive":               true,
-		"checker_cmd":              meta.CheckerCmd,
-		"trusted_base":             meta.Trusted,
-		"analysed":                 r.Stats,
-		"notes":                    r.Notes,
-		"evaluations":              total,
-		"distinct_nontrivial":      total,
-		"rule":                     "one evaluation = one obligation (rule instance on a named construct of /repo's current tree); all are distinct constructs; non-trivial = the rule had to inspect SSA/types to decide it",
+		"explanation":           meta.Explanation,
+		"not_decided":           meta.NotDecided,
+		"obligations":           total,
+		"discharged":            disch,
+		"known_findings":        kfl,
+		"known_finding_count":   kf,
+		"unlisted_violations":   viol,
+		"positive_example_obls": armed,
+		"rules":                 rules,
+		"samples":               samples,
+		"exhaustive":            true,
+		"checker_cmd":           meta.CheckerCmd,
+		"trusted_base":          meta.Trusted,
+		"analysed":              r.Stats,
+		"notes":                 r.Notes,
+		"evaluations":           total,
+		"distinct_nontrivial":   total,
+		"rule":                  "one evaluation = one obligation (rule instance on a named construct of /repo's current tree); all are distinct constructs; non-trivial = the rule had to inspect SSA/types to decide it",
 	}
 	for k, v := range r.Extras {
 		cov[k] = v
